@@ -24,6 +24,7 @@ import IgrisModel.C10.Lemmas
 import IgrisModel.C10.LemmasZones
 import IgrisModel.C10.LemmasIter
 import IgrisModel.C10.LemmasPtr
+import IgrisModel.C10.LemmasAddr
 namespace Igris.C10
 
 /-! ## Fixed-block pools (pool_head / igris::pool / static_object_pool)
@@ -894,5 +895,126 @@ example : ∃ x, mrunE ⟨⟨[32, 16]⟩, [64, 48], [⟨16, 64, 16⟩]⟩ [.enga
     48 ∈ x.1.live ∧ x.2.length = 7 ∧ (∀ z ∈ x.1.zones, 8 ≤ z.elemsz) := ⟨_, rfl, by decide, by decide, by decide⟩
 example : ∃ p, sxrun 16 (SOPx.init 12 4 2) [.create, .create, .engage 64 2, .create, .destroy 16, .create] = some p ∧
     p.sop.objs = [16, 80, 0] ∧ p.ctor = [16, 80, 0, 16] ∧ p.dtor = [16] := ⟨_, rfl, by decide⟩
+
+
+/-! ## Extension round 3
+
+### 64-bit ADDRESSES (pointer wrap-around)
+
+All heap theorems above speak about offsets from `__malloc_heap_start` in `Nat`.  The
+code computes with 64-bit pointers.  `base` = the address of the heap start; `mallocA` /
+`reallocA` (what the driver runs) = the routines with the pointer comparisons of the C
+code evaluated modulo 2⁶⁴, after `fix: malloc() refuses a request that would move the
+break across the top of the address space`; `mallocOrigA` = step 3 as it was. -/
+
+/-- realloc's `cp = (char *)ptr + len; if (cp < cp1) return 0;` on 64-bit pointers
+(`cp1 = ptr − 8`) fires EXACTLY when `ptr + len` does not fit 64 bits — for every payload
+pointer (≥ 8) and every rounded request (below `2⁶⁴ − 8`) -/
+theorem heap_addr_wrap_test_exact (ptr len : BitVec 64) (hp : 8 ≤ ptr.toNat) (hl : len.toNat < 2 ^ 64 - 8) :
+    (ptr + len < ptr - 8#64) ↔ 2 ^ 64 ≤ ptr.toNat + len.toNat := by
+  have h1 := ptr.isLt
+  have h2 := len.isLt
+  simp only [BitVec.lt_def, BitVec.toNat_add, BitVec.toNat_sub, BitVec.toNat_ofNat]
+  have : (2 : Nat) ^ 64 = 18446744073709551616 := by decide
+  rw [this] at *
+  omega
+
+/-- the model's test is that comparison -/
+theorem heap_addr_wrap_test_model (base p len : Nat) (hb : base + p < 2 ^ 64) (h8 : 8 ≤ p) (hl : len < 2 ^ 64) :
+    reallocWrapTest base p len =
+      decide (BitVec.ofNat 64 (base + p) + BitVec.ofNat 64 len < BitVec.ofNat 64 (base + p) - 8#64) := by
+  simp only [reallocWrapTest, BitVec.lt_def, BitVec.toNat_add, BitVec.toNat_sub, BitVec.toNat_ofNat]
+  have : (2 : Nat) ^ 64 = 18446744073709551616 := by decide
+  rw [this] at *
+  congr 1
+  apply propext
+  constructor <;> intro h <;> omega
+
+/-- EXACT precondition under which the offset model is the code (malloc): the repaired
+routine refuses precisely the requests that reach step 3 without a heap end and whose new
+chunk would cross the top of the address space; every other request is served exactly as
+by the unbounded model (so every theorem above transfers), a refused one changes nothing -/
+theorem heap_addr_malloc_transfer (base : Nat) (cfg : Cfg) (h : Heap) (n : Nat) (hb : base + h.brk ≤ SIZE_MAX) :
+    (mallocRefusesA base cfg h n = true ↔
+      cfg.lim = 0 ∧ reachesStep3 cfg h n = true ∧ SIZE_MAX < base + h.brk + (minLen (roundLen cfg.W n) + 8)) ∧
+    (mallocRefusesA base cfg h n = false → mallocA base cfg h n = malloc64 cfg h n) ∧
+    (mallocRefusesA base cfg h n = true → mallocA base cfg h n = ⟨h, none, []⟩) := by
+  refine ⟨?_, fun hf => ?_, fun ht => ?_⟩
+  · simp only [mallocRefusesA, Bool.and_eq_true, beq_iff_eq, brkWraps_iff base h _ hb]
+    constructor
+    · rintro ⟨⟨a, b⟩, c⟩; exact ⟨a, b, c⟩
+    · rintro ⟨a, b, c⟩; exact ⟨⟨a, b⟩, c⟩
+  · unfold mallocA malloc64; simp [hf]
+  · unfold mallocA; simp [ht]
+
+/-- EXACT precondition (iff) under which the offset model IS the code: the C code compares
+64-bit POINTERS (`fp1 < fpnew` in free, `cp <= __brkval` and `cp > __malloc_heap_end` at the
+heap end, `cp < cp1` in realloc), the model compares offsets.  The address of offset `x` is
+`(base + x) mod 2⁶⁴`.  Address order coincides with offset order on everything up to the
+break IF AND ONLY IF `base + brk < 2⁶⁴` — which `heap_addr_history` proves for every state
+the repaired code can reach (and `heap_addr_wrap_witness` refutes for the code as it was). -/
+theorem heap_addr_order_iff (base brk : Nat) (hbrk : 0 < brk) :
+    (∀ x y, x ≤ brk → y ≤ brk → (x < y ↔ (base + x) % 2 ^ 64 < (base + y) % 2 ^ 64)) ↔
+      base % 2 ^ 64 + brk < 2 ^ 64 := by
+  have h64 : (2 : Nat) ^ 64 = 18446744073709551616 := by decide
+  rw [h64]
+  constructor
+  · intro hall
+    by_cases hbig : 18446744073709551616 ≤ brk
+    · have := (hall 0 18446744073709551616 (by omega) hbig).1 (by omega)
+      omega
+    · have := (hall 0 brk (by omega) (Nat.le_refl _)).1 hbrk
+      omega
+  · intro hno x y hx hy
+    omega
+
+/-- FULL STATEMENT ("overlaps no other live block", all request sizes) violated by the
+routine as it was.  Arena at address 2⁴⁶, no heap end: `malloc(64)`; `malloc(2⁶⁴ − 64)`
+moves the break from offset 72 BACK to offset 16 and returns a "block" of 2⁶⁴ − 64 bytes;
+the next `malloc(8)` is carved out at offset 16 — inside the payload of the first block,
+which is still live.  The repaired routine answers NULL and changes nothing. -/
+theorem heap_addr_wrap_witness :
+    let cfg : Cfg := ⟨64, 0⟩
+    let base := 2 ^ 46
+    let h1 := (malloc cfg Heap.init 64).h
+    let r2 := mallocOrigA base cfg h1 (2 ^ 64 - 64)
+    r2.ret = some 80 ∧ r2.h.brk = 16 ∧
+    (malloc cfg r2.h 8).ret = some 24 ∧ (0, 64) ∈ (malloc cfg r2.h 8).h.live ∧
+    (16, 64) ∈ (malloc cfg r2.h 8).h.live ∧ ¬ Disj (0, 64) (16, 64) ∧
+    mallocA base cfg h1 (2 ^ 64 - 64) = ⟨h1, none, []⟩ := by
+  refine ⟨by decide, by decide, by decide, by decide, by decide, ?_, by decide⟩
+  simp [Disj]
+
+/-- WHOLE HISTORIES on 64-bit addresses: for every arena address `base` (with the
+configured heap end, if any, below `2⁶⁴`), every history of malloc / free / realloc with
+`size_t` request sizes leads to a state the unbounded model reaches too (so `heap_inv`,
+`heap_no_clobber`, … hold for it), and no address of any chunk — header, payload, the
+break itself — wraps: the offsets ARE the addresses.  (`W` a power of two ≥ 16: the wrap
+test of realloc needs `len < 2⁶⁴ − 8`.) -/
+theorem heap_addr_history (base : Nat) (cfg : Cfg) (ok : CfgOK cfg) (hWd : cfg.W ∣ 2 ^ 64) (hW16 : 16 ≤ cfg.W)
+    (hbase : base ≤ SIZE_MAX) (hlim : cfg.lim ≠ 0 → base + cfg.lim ≤ SIZE_MAX)
+    (ops : List Op) (h : Heap) (hsz : ∀ op ∈ ops, op.sizeOK) (hr : runA base cfg Heap.init ops = some h) :
+    Reach cfg h ∧ base + h.brk ≤ SIZE_MAX ∧ ∀ c ∈ h.flp ++ h.live, base + (c.1 + 8 + c.2) ≤ SIZE_MAX := by
+  have hi0 : AInv base cfg Heap.init := ⟨HInv.init cfg, by simpa [Heap.init] using hbase⟩
+  obtain ⟨hi, hreach⟩ := runA_inv base cfg ok hWd hW16 ops Heap.init h hsz hi0 ⟨[], rfl⟩ hlim hr
+  refine ⟨hreach, hi.top, fun c hc => ?_⟩
+  have := hi.inv.fin_le_brk (List.mem_append.1 hc)
+  have := hi.top
+  omega
+
+example : ∃ h, runA (2 ^ 46) ⟨64, 0⟩ Heap.init [.malloc 64, .malloc (2 ^ 64 - 64), .realloc (some 8) (2 ^ 64 - 64),
+    .malloc 8] = some h ∧ h.brk = 144 := ⟨_, rfl, by decide⟩
+example : (64 : Nat) ∣ 2 ^ 64 := ⟨2 ^ 58, by decide⟩
+
+/-! ### Alignment: 8 bytes is what holds; `alignof(max_align_t) = 16` (LP64 host) does not -/
+
+/-- FULL STATEMENT ("aligned for its use" = suitably aligned for any object, i.e. for
+`max_align_t`) fails on a host where `alignof(max_align_t) = 16`: the very first block of a
+fresh heap has its payload at offset 8 of the (64-aligned) arena.  What holds is 8-byte
+alignment (`malloc_returns_valid_block`, `heap_inv.aligned`): the alignment of `max_align_t` on
+the 32-bit targets of the port.  Finding `C10-heap-align-max-align-t`. -/
+theorem heap_max_align_witness :
+    (malloc ⟨64, 0⟩ Heap.init 1).ret = some 8 ∧ 8 % 16 ≠ 0 ∧ 8 % 8 = 0 ∧
+    (malloc ⟨64, 0⟩ (malloc ⟨64, 0⟩ Heap.init 1).h 1).ret = some 80 ∧ 80 % 16 = 0 := by decide
 
 end Igris.C10
